@@ -24,6 +24,7 @@ Clauses(rec) ==
   (IF rec.r < 0 /\ rec.left # 0 THEN {"C04:child-left-behind-after-failed-start", "C05:child-of-failed-start-left-unreaped"} ELSE {}) \cup
   (IF rec.r < 0 /\ (rec.dnfd # 0 \/ rec.dnalloc # 0) THEN {"C04:failed-start-left-resources", "C05:failed-start-left-resources"} ELSE {}) \cup
   (IF rec.r < 0 /\ rec.r2 # 1 THEN {"C04:handle-not-restartable-after-failed-start"} ELSE {}) \cup
+  (IF rec.r < 0 /\ (rec.r2 # 1 \/ rec.pidr # EINVAL \/ rec.dnfd # 0) THEN {"C14:failed-start-did-not-leave-the-handle-not-started"} ELSE {}) \cup
   (IF rec.r < 0 /\ rec.r \notin errs THEN {"C04:error-is-not-the-injected-cause"} ELSE {}) \cup
   \* (not judged when the injected fault was the child's error report itself: no channel is left to report through)
   (IF rec.r > 0 /\ ~rec.reportfault /\ (rec.forks # 1 \/ rec.cexec # 1 \/ rec.pidr # 1)
